@@ -2,4 +2,21 @@
 //! resource types with a process-global ledger.
 pub mod ledger;
 pub mod comps;
-pub mod gen_r5;
+
+use brood::entity;
+
+pub fn id_parts(id: entity::Identifier) -> (usize, u64) {
+    let v = serde_json::to_value(id).unwrap();
+    (
+        v["index"].as_u64().unwrap() as usize,
+        v["generation"].as_u64().unwrap(),
+    )
+}
+
+pub fn mk_id(index: usize, generation: u64) -> entity::Identifier {
+    serde_json::from_str(&format!(
+        "{{\"index\":{},\"generation\":{}}}",
+        index, generation
+    ))
+    .unwrap()
+}
